@@ -265,6 +265,84 @@ func c06r2(c *Ctx) {
 			}
 		})
 	}
+	// a dispatch table instead of switches: a package-level map literal keyed by the EventType constants whose
+	// values name the data type (a generic constructor's type argument, or a composite literal's type); every
+	// function that indexes it is a decoder with that table
+	pkgW := c.P.Package("wallet")
+	for _, file := range pkgW.Syntax {
+		for _, d := range file.Decls {
+			gd, ok := d.(*ast.GenDecl)
+			if !ok || gd.Tok != token.VAR {
+				continue
+			}
+			for _, sp := range gd.Specs {
+				vs := sp.(*ast.ValueSpec)
+				for i, nm := range vs.Names {
+					if i >= len(vs.Values) {
+						continue
+					}
+					cl, ok := ast.Unparen(vs.Values[i]).(*ast.CompositeLit)
+					if !ok {
+						continue
+					}
+					if _, isMap := pkgW.TypesInfo.TypeOf(cl).Underlying().(*types.Map); !isMap {
+						continue
+					}
+					table := map[string]string{}
+					for _, el := range cl.Elts {
+						kv, ok := el.(*ast.KeyValueExpr)
+						if !ok {
+							continue
+						}
+						k, ok := ast.Unparen(kv.Key).(*ast.Ident)
+						if !ok || !strings.HasPrefix(k.Name, "EventType") {
+							continue
+						}
+						dt := ""
+						ast.Inspect(kv.Value, func(n ast.Node) bool {
+							if id, ok := n.(*ast.Ident); ok && dt == "" {
+								if inst, ok := pkgW.TypesInfo.Instances[id]; ok && inst.TypeArgs != nil && inst.TypeArgs.Len() > 0 {
+									if nt := ir.NamedOf(inst.TypeArgs.At(0)); nt != nil {
+										dt = nt.Obj().Name()
+									}
+								}
+							}
+							if lit, ok := n.(*ast.CompositeLit); ok && dt == "" {
+								if nt := ir.NamedOf(pkgW.TypesInfo.TypeOf(lit)); nt != nil {
+									for _, im := range impls {
+										if im == nt.Obj().Name() {
+											dt = im
+										}
+									}
+								}
+							}
+							return dt == ""
+						})
+						table[k.Name] = dt
+					}
+					if len(table) < 2 {
+						continue
+					}
+					tobj := pkgW.TypesInfo.Defs[nm]
+					for _, f := range c.P.PkgFuncs("wallet") {
+						if !f.MentionsObj(f.Body, true, tobj) {
+							continue
+						}
+						c.Visit(1)
+						ob := c.Ob(f, "decoder-covers-all-event-types", cl.Pos())
+						var missing []string
+						for _, k := range consts {
+							if _, ok := table[k]; !ok {
+								missing = append(missing, k)
+							}
+						}
+						ob.Check(len(missing) == 0, nil, "the decoder table %s used by %s has no entry for %s: stored or transmitted events of that type cannot be read back", nm.Name, f.Name(), strings.Join(missing, ", "))
+						decodeTables[f.Name()] = table
+					}
+				}
+			}
+		}
+	}
 	// decoders agree
 	var names []string
 	for n := range decodeTables {
@@ -274,8 +352,9 @@ func c06r2(c *Ctx) {
 	ref := map[string]string{}
 	if len(names) > 0 {
 		ref = decodeTables[names[0]]
+		names = names[1:]
 	}
-	for _, n := range names[1:] {
+	for _, n := range names {
 		ob := c.Ob(nil, "decoders-agree:"+n, 0)
 		var diffs []string
 		for _, k := range consts {
@@ -283,7 +362,7 @@ func c06r2(c *Ctx) {
 				diffs = append(diffs, k+": "+ref[k]+" vs "+decodeTables[n][k])
 			}
 		}
-		ob.Check(len(diffs) == 0, nil, "%s and %s map event types to different data types (%s)", names[0], n, strings.Join(diffs, "; "))
+		ob.Check(len(diffs) == 0, nil, "two decoders (%s and another) map event types to different data types (%s)", n, strings.Join(diffs, "; "))
 	}
 	// emitted pairs
 	for _, f := range c.P.PkgFuncs("wallet") {
@@ -484,6 +563,9 @@ func c06r3(c *Ctx) {
 	applyIdx := c.P.Method("wallet", "UpdateTx", "WalletApplyIndex")
 	revertIdx := c.P.Method("wallet", "UpdateTx", "WalletRevertIndex")
 	af, rf := walletSteps(c)
+	// with helpers (e.g. a shared "is this diff relevant" predicate) expanded
+	vs := c.P.Views("wallet", ir.ExpandOpt{Key: "all"})
+	af, rf = vs.Of(af), vs.Of(rf)
 	a, r := walletDiffTable(af), walletDiffTable(rf)
 	c.VisitGraph(af)
 	c.VisitGraph(rf)
@@ -634,6 +716,9 @@ func c06r4(c *Ctx) {
 		}
 	}
 	if n == 0 {
-		ir.Fail("no pair of wallet-address tests on one element found in the event builders")
+		// no element is tested twice in one loop body (e.g. the payouts are iterated from a table and tested by one
+		// condition): independence holds by construction
+		c.Visit(1)
+		c.Ob(nil, "address-tests-independent", 0).OK("no loop body tests two address operands of one element against the wallet's address")
 	}
 }
